@@ -879,7 +879,11 @@ def run_file_cases(rep, drv, run, cases, dist):
         dist["file"] = dist.get("file", 0) + 1
         if a == "FAULT died":
             continue
-        for kind, text in judge_file(li, meta, a, per.get(ci, [])):
+        try:
+            fverd = judge_file(li, meta, a, per.get(ci, []))
+        except Exception as ex:
+            fverd = [("violation", "the driver's answer cannot be interpreted (%s: %s): %s" % (type(ex).__name__, ex, a[:300]))]
+        for kind, text in fverd:
             if kind == "violation":
                 rep.violation("file: " + text, {"case": li, "meta": meta, "impl": a[:1500]})
             else:
@@ -1002,6 +1006,8 @@ def judge(line, meta, impl, model):
         mtxt = "STATS none" if st is None else "STATS nulls=%s min=%s max=%s" % (st["nulls"], hx(st["min"]), hx(st["max"]))
         if mtxt != model:
             out.append(("tie", "page-writer model and page header differ: header %s / model %s" % (mtxt, model[:120])))
+        if st is None and not meta.get("nostats") and any(not is_nan(t, bytes.fromhex(v)) for v in meta["vals"]):
+            out.append(("violation", "the page holds non-NaN values and statistics are on, but the page header carries no statistics"))
         if meta.get("nostats") and st is not None:
             out.append(("violation", "statistics were switched off with carquet_page_writer_set_statistics but the page header carries them"))
         if st is not None:
@@ -1116,7 +1122,11 @@ def run_cases(rep, drv, run, cases, what, dist):
         dist[what] = dist.get(what, 0) + 1
         if a == "FAULT died":
             continue
-        for kind, text in judge(li, meta, a, b):
+        try:
+            verdicts = judge(li, meta, a, b)
+        except Exception as ex:      # unparsable output of a changed tree is a violation with this case as replay, never a crash
+            verdicts = [("violation", "the driver's answer cannot be interpreted (%s: %s): %s" % (type(ex).__name__, ex, a[:300]))]
+        for kind, text in verdicts:
             if kind == "violation":
                 rep.violation(what + ": " + text, {"case": li, "meta": meta, "impl": a[:1500], "model": b[:1500]})
             else:
@@ -1198,7 +1208,10 @@ def replay(path):
         return 1 if res else 0
     if meta.get("kind") not in ("bld", "pw", "rd", "cmp", "ovl", "pm", "pmw", "pmh", "oix"):
         meta = dict(meta, kind={"builder": "bld", "page_writer": "pw", "reader": "rd", "reader_long_stats": "rd", "page_index_from_pages": "pmw", "page_index_histories": "pmh", "page_index_histories_from_pages": "pmw", "offset_index": "oix", "page_index_long_prefixes": "pmh"}.get(meta.get("kind"), case.split()[0]))
-    res = judge(case, meta, out[0], mo[0] if mo else "RUNNER-ERROR none")
+    try:
+        res = judge(case, meta, out[0], mo[0] if mo else "RUNNER-ERROR none")
+    except Exception as ex:
+        res = [("violation", "the driver's answer cannot be interpreted (%s: %s)" % (type(ex).__name__, ex))]
     for kind, text in res:
         print(kind.upper() + ":", text)
     return 1 if res else 0
